@@ -28,6 +28,7 @@ inline mj::Value twr_case_json(const TwrCase & c) {
     mj::Value lat = mj::Value::array();
     for (auto & kv : c.sch.latency_ms) { mj::Value e = mj::Value::array(); e.push((long long) kv.first); e.push((long long) kv.second); lat.push(e); }
     s.set("latency", lat);
+    if (!c.sch.pct.empty()) { mj::Value pc = mj::Value::array(); for (auto x : c.sch.pct) pc.push((long long) x); s.set("pct", pc); }
     v.set("schedule", s);
     return v;
 }
@@ -41,6 +42,7 @@ inline TwrCase twr_case_from(const mj::Value & v) {
     if (v.has("schedule")) {
         const mj::Value & s = v.at("schedule");
         if (s.has("choices")) for (auto & x : s.at("choices").a) c.sch.choices.push_back((uint32_t) x.as_int());
+        if (s.has("pct")) for (auto & x : s.at("pct").a) c.sch.pct.push_back((uint32_t) x.as_int());
         if (s.has("latency")) for (auto & e : s.at("latency").a) c.sch.latency_ms[(uint64_t) e.a[0].as_int()] = e.a[1].as_int();
     }
     return c;
@@ -100,12 +102,24 @@ inline TwrCase gen_twr_case(Tape & t, int size, bool many_flushes) {
                        p.ops.push_back(o); break; }
         }
     }
-    // schedule
-    int nch = (int) t.range(0, 40 + size * 4);
-    for (int k = 0; k < nch; ++k) {
-        uint32_t c2 = t.raw();
-        if (!t.chance(1, 12)) c2 &= 0x7fffffffu;   // the top bit asks for a time jump (a sleeper runs although others could)
-        c.sch.choices.push_back(c2);
+    // schedule: a uniform choice vector (covers the first few hundred choice points densely, then runs without preemption), or a
+    // PCT-style priority schedule (random thread ranks + 0..4 change points spread over the whole run, some of them time jumps)
+    if (t.chance(2, 5)) {
+        for (int k = 0; k < 3; ++k) c.sch.pct.push_back(t.raw() % 1000);
+        int d = (int) t.weighted({2, 3, 3, 2, 1});
+        int64_t horizon = t.pick(std::vector<int64_t>{40, 200, 1000, 4000});
+        for (int k = 0; k < d; ++k) {
+            uint32_t at = (uint32_t) t.range(0, horizon);
+            if (t.chance(1, 6)) at |= 0x80000000u;
+            c.sch.pct.push_back(at);
+        }
+    } else {
+        int nch = (int) t.range(0, 40 + size * 4);
+        for (int k = 0; k < nch; ++k) {
+            uint32_t c2 = t.raw();
+            if (!t.chance(1, 12)) c2 &= 0x7fffffffu;   // the top bit asks for a time jump (a sleeper runs although others could)
+            c.sch.choices.push_back(c2);
+        }
     }
     int nlat = (int) t.weighted({6, 2, 1});
     for (int k = 0; k < nlat; ++k) c.sch.latency_ms[(uint64_t) t.range(0, 400)] = t.pick(std::vector<int64_t>{6000, 25000, 100, 4999, 20001});
